@@ -10,7 +10,7 @@ import re
 from .. import stream
 from . import common
 
-FACTS = ["further_gt", "leftrec_closed", "file_codegen_src_rule_rs", "file_runtime_src_state_rs", "file_runtime_src_error_rs"]
+FACTS = common.CODEGEN_FILES
 
 
 def ref_lr(inp, ops):
